@@ -169,6 +169,12 @@ func Defects(t M) []Mutation {
 			add("mount-containerpath-empty@"+pl, mp.With("containerPath"), "set", "", inv)
 			add("mount-containerpath-missing@"+pl, mp.With("containerPath"), "del", nil, inv)
 			add("list-with-repeated-entries@"+pl+"/mount-options", mp.With("options"), "set", L{"ro", "bind", "ro"}, val)
+			// the same defects next to every common value of the members a validator might key an exception on
+			for _, ty := range []string{"tmpfs", "proc", "sysfs", "devpts", "bind", "none", "overlay", "cgroup2", "mqueue"} {
+				add("mount-hostpath-empty-with-type:"+ty+"@"+pl, mp, "set", M{"hostPath": "", "containerPath": "/c", "type": ty, "options": L{"ro"}}, inv)
+				add("mount-hostpath-missing-with-type:"+ty+"@"+pl, mp, "set", M{"containerPath": "/c", "type": ty}, inv)
+				add("mount-containerpath-empty-with-type:"+ty+"@"+pl, mp, "set", M{"hostPath": "/h", "containerPath": "", "type": ty}, inv)
+			}
 			add("mount-null-entry@"+pl, mp, "set", nil, inv)
 			add("unknown-member@mount/"+pl, mp.With("bogus"), "set", "x", inv)
 		}
